@@ -174,7 +174,7 @@ def parseHash (s : String) : Option HashKind :=
 def parseQuirks (s : String) : Quirks :=
   let has (c : Char) := s.toList.contains c
   { d1 := has '1', d2 := has '2', d3 := has '3', d4 := has '4',
-    d5 := has '5', d6 := has '6', d7 := has '7', d8 := has '8' }
+    d5 := has '5', d6 := has '6', d7 := has '7', d8 := has '8', d10 := has 'a' }
 
 def parseCfgField (c : Cfg) (kv : String) : Option Cfg :=
   match kv.splitOn "=" with
